@@ -83,9 +83,28 @@ func arithCase(c *core.Ctx, rng *rand.Rand) {
 		}
 		eval := func() string {
 			line, r := locLine(src, tgt, srcSeg, fTime)
+			// oracle (every pair, inside or outside the guard): the rollup object answers with the
+			// TARGET INTERVAL'S OWN calculator — one timestamp has one slot in the target family
+			tc := timeutil.Interval(tgt).Calculator()
+			fst := sc.CalcFamilyStartTime(srcSeg, fTime)
+			tSeg := tc.CalcSegmentTime(fst)
+			fS := tc.CalcFamilyStartTime(tSeg, tc.CalcFamily(fst, tSeg))
+			if want := uint16(tc.CalcSlot(fst, fS, tgt)); r.BaseSlot() != want {
+				c.Fail("rollup-baseslot-vs-calculator", fmt.Sprintf("interval %d -> %d, source family start %d, target family start %d: BaseSlot() = %d, the target calculator's slot of the source family start is %d", src, tgt, fst, fS, r.BaseSlot(), want))
+			}
+			if want := uint16(tgt / src); r.IntervalRatio() != want {
+				c.Fail("rollup-ratio", fmt.Sprintf("interval %d -> %d: IntervalRatio() = %d, want %d", src, tgt, r.IntervalRatio(), want))
+			}
 			outs := make([]string, len(slots))
 			for i, s := range slots {
 				ts := r.GetTimestamp(uint16(s))
+				if ts != fst+int64(s)*src {
+					c.Fail("rollup-timestamp", fmt.Sprintf("interval %d: GetTimestamp(%d) = %d for family start %d", src, s, ts, fst))
+				}
+				if want := uint16(tc.CalcSlot(ts, fS, tgt)); r.CalcSlot(ts) != want {
+					c.Fail("rollup-calcslot-vs-calculator", fmt.Sprintf("interval %d -> %d, source family start %d, target family start %d: rollup.CalcSlot(%d) = %d (source slot %d), the target interval's calculator puts that timestamp in slot %d",
+						src, tgt, fst, fS, ts, r.CalcSlot(ts), s, want))
+				}
 				pos := placeReal(r.IntervalRatio(), r.BaseSlot(), uint16(s))
 				p := "x"
 				if pos >= 0 {
